@@ -46,22 +46,26 @@ def gen_case(rng):
     prog = [("SNew", s), ("SSetSR", s, SR)]
     modes = {}
     any_out = False
-    for pos in range(1, npos + 1):
+    order = list(range(1, npos + 1))
+    rng.shuffle(order)                      # positions are filled in arbitrary order
+    for pos in order:
         e = regs.E()
         prog.append(("ENew", e))
         ch = list(chans)
         rng.shuffle(ch)
         for c in ch:
             lo, hi = off[c] - ampl[c] / 2, off[c] + ampl[c] / 2
-            mode = rng.choice(["in", "in", "in", "at_hi", "at_lo", "above", "below"])
-            if mode in ("above", "below"):
+            mode = rng.choice(["in", "in", "in", "at_hi", "at_lo", "above", "below", "ulp_above", "ulp_below"])
+            if mode in ("above", "below", "ulp_above", "ulp_below"):
                 if any_out and rng.random() < 0.7:
                     mode = "in"
                 else:
                     any_out = True
             modes[f"{pos}:{c}"] = mode
             eps = ampl[c] / 1024
-            peak = {"in": off[c] + ampl[c] / 8, "at_hi": hi, "at_lo": lo, "above": hi + eps, "below": lo - eps}[mode]
+            peak = {"in": off[c] + ampl[c] / 8, "at_hi": hi, "at_lo": lo, "above": hi + eps, "below": lo - eps,
+                    "ulp_above": float(np.nextafter(hi, np.inf)) if hi != 0 else 5e-324,
+                    "ulp_below": float(np.nextafter(lo, -np.inf)) if lo != 0 else -5e-324}[mode]
             inner = [off[c], off[c] + ampl[c] / 4, off[c] - ampl[c] / 4]
             if kinds[c] == "bp":
                 r = regs.B()
